@@ -3,6 +3,7 @@ package bitcoin_reader
 import (
 	"fmt"
 	"strings"
+	"sync"
 )
 
 func init() {
@@ -224,4 +225,81 @@ func cutPoint(cut, n int) int {
 		}
 	}
 	return n
+}
+
+func init() {
+	verifHarnesses["VerifC20Concurrent"] = VerifC20Concurrent
+}
+
+// VerifC20Concurrent: two callers use the address book at the same time. Under every interleaving
+// (bounded preemptions) an address is added once, a score is the sum of the deltas applied, and
+// once every Save has returned a fresh Load reproduces the state of the last Save that started
+// after all updates had completed.
+func VerifC20Concurrent() {
+	store := newVerifStore()
+	repo := NewPeerRepository(store, "")
+	ctx := ctxbg()
+	a, b := verifAddrs[1], verifAddrs[4]
+	repo.Add(ctx, a)
+	var wg sync.WaitGroup
+	wg.Add(2)
+	d1 := int32(nondetU32("delta1"))
+	d2 := int32(nondetU32("delta2"))
+	var added1, added2 bool
+	scenario := pick("scenario", 4)
+	switch scenario {
+	case 0: // the same new address from both callers
+		go func() { added1, _ = repo.Add(ctx, b); wg.Done() }()
+		go func() { added2, _ = repo.Add(ctx, b); wg.Done() }()
+	case 1: // a Save racing with an update followed by its own Save
+		go func() { repo.Save(ctx); wg.Done() }()
+		go func() { repo.UpdateScore(ctx, a, d1); repo.Save(ctx); wg.Done() }()
+	case 2: // two updates of one peer
+		go func() { repo.UpdateScore(ctx, a, d1); wg.Done() }()
+		go func() { repo.UpdateScore(ctx, a, d2); wg.Done() }()
+	case 3: // a Save racing with Clear followed by Add and Save
+		go func() { repo.Save(ctx); wg.Done() }()
+		go func() { repo.Clear(ctx); repo.Add(ctx, b); repo.Save(ctx); wg.Done() }()
+	}
+	wg.Wait()
+	verifObserve("scenario", scenario)
+	all, _ := repo.Get(ctx, -2147483648, -1)
+	scoreOf := func(l PeerList, addr string) (int32, int) {
+		n := 0
+		var sc int32
+		for _, p := range l {
+			if p.Address == addr {
+				n++
+				sc = p.Score
+			}
+		}
+		return sc, n
+	}
+	reload := func() PeerList {
+		r2 := NewPeerRepository(store, "")
+		if err := r2.Load(ctx); err != nil {
+			verifAssert(false, "load-returns-error")
+		}
+		return r2.list
+	}
+	switch scenario {
+	case 0:
+		verifAssert(added1 != added2, "address-added-by-both-or-neither-caller")
+		_, n := scoreOf(all, b)
+		verifAssert(n == 1 && repo.Count() == 2, "address-held-twice-after-concurrent-add")
+	case 1:
+		sc, n := scoreOf(all, a)
+		verifAssert(n == 1 && sc == d1, "peer-score-is-not-sum-of-deltas")
+		ssc, sn := scoreOf(reload(), a)
+		verifAssert(sn == 1 && ssc == d1, "stored-file-older-than-last-save-started-after-the-update")
+	case 2:
+		sc, n := scoreOf(all, a)
+		verifAssert(n == 1 && sc == d1+d2, "peer-score-is-not-sum-of-deltas")
+	case 3:
+		l := reload()
+		_, na := scoreOf(l, a)
+		_, nb := scoreOf(l, b)
+		verifAssert(na == 0 && nb == 1 && len(l) == 1, "stored-file-older-than-last-save-started-after-the-update")
+	}
+	verifReach("done")
 }
